@@ -36,7 +36,7 @@ const BUILTINS = new Set(['undefined', 'NaN', 'Infinity', 'globalThis', 'Object'
 function analyze(ast, strictProgram) {
   const free = new Set();
   const info = { free, topLex: [], usesEval: false, annexB: false, declared: new Map(), usesErrText: false };
-  function mkScope(kind, parent) { return { kind, names: new Set(), parent }; }
+  function mkScope(kind, parent) { return { kind, names: new Set(), parent, lexEnd: new Map() }; }
   function declare(scope, name) { scope.names.add(name); info.declared.set(name, (info.declared.get(name) || 0) + 1); }
   function patNames(p, out) {
     if (!p) return;
@@ -77,8 +77,8 @@ function analyze(ast, strictProgram) {
       let d = s;
       if (s.type === 'ExportNamedDeclaration' || s.type === 'ExportDefaultDeclaration') d = s.declaration || s;
       if (d.type === 'VariableDeclaration' && d.kind !== 'var') {
-        for (const x of d.declarations) { const o = []; patNames(x.id, o); o.forEach((n) => { declare(scope, n); if (isTopProgram) info.topLex.push(n); }); }
-      } else if (d.type === 'ClassDeclaration' && d.id) { declare(scope, d.id.name); if (isTopProgram) info.topLex.push(d.id.name); }
+        for (const x of d.declarations) { const o = []; patNames(x.id, o); o.forEach((n) => { declare(scope, n); scope.lexEnd.set(n, x.end); if (isTopProgram) info.topLex.push(n); }); }
+      } else if (d.type === 'ClassDeclaration' && d.id) { declare(scope, d.id.name); scope.lexEnd.set(d.id.name, d.end); if (isTopProgram) info.topLex.push(d.id.name); }
       else if (d.type === 'FunctionDeclaration' && d.id) declare(scope, d.id.name);
       else if (d.type === 'ImportDeclaration') for (const sp of d.specifiers) declare(scope, sp.local.name);
     }
@@ -87,14 +87,23 @@ function analyze(ast, strictProgram) {
     for (let s = scope; s; s = s.parent) if (s.names.has(name)) return true;
     return false;
   }
-  function ref(scope, name) {
+  function ref(scope, name, pos) {
     if (name === 'eval' || name === 'Function') info.usesEval = true;
-    if (!resolve(scope, name)) free.add(name);
+    if (!resolve(scope, name)) { free.add(name); return; }
+    // static temporal dead zone: a reference that textually precedes the end of the let/const/class declaration it resolves to,
+    // in the same function activation (let y=y=1;  y;let y) - raises a TDZ ReferenceError whenever it is executed, even if the
+    // program swallows the error in its own try/catch
+    if (pos === undefined) return;
+    let crossed = false;
+    for (let sc = scope; sc; sc = sc.parent) {
+      if (sc.names.has(name)) { if (!crossed && sc.lexEnd.has(name) && pos < sc.lexEnd.get(name)) info.tdzStatic = true; return; }
+      if (sc.kind === 'function') crossed = true;
+    }
   }
   function pattern(p, scope, isDecl) {
     if (!p) return;
     switch (p.type) {
-      case 'Identifier': if (!isDecl) ref(scope, p.name); break;
+      case 'Identifier': if (!isDecl) ref(scope, p.name, p.start); break;
       case 'ObjectPattern':
         for (const pr of p.properties) {
           if (pr.type === 'RestElement') pattern(pr.argument, scope, isDecl);
@@ -132,7 +141,7 @@ function analyze(ast, strictProgram) {
   function expr(n, scope) {
     if (!n) return;
     switch (n.type) {
-      case 'Identifier': ref(scope, n.name); return;
+      case 'Identifier': ref(scope, n.name, n.start); return;
       case 'MemberExpression':
         expr(n.object, scope);
         if (n.computed) expr(n.property, scope);
@@ -320,7 +329,7 @@ function execute(src, env, lexNames, probeLevel, timeout) {
   let snap;
   try { snap = JSON.parse(api.snapshot(lexJson)); } catch (e) { return { broken: String(e) }; }
   comp.push(probeComp);
-  return { obs: { calls: snap.calls, globals: snap.globals, comp: comp.slice(0, 3).concat([probeComp]) }, tdz: tdz || !!snap.tdz };
+  return { obs: { calls: snap.calls, globals: snap.globals, comp: comp.slice(0, 3).concat([probeComp]) }, tdz: tdz || !!snap.tdz, stack: !!snap.stack };
 }
 
 function withDepth(n, fn) { return n <= 0 ? fn() : [withDepth(n - 1, fn), n, n + 1, n + 2][0]; }
@@ -337,6 +346,7 @@ function observePair(c) {
   try { info = analyze(parsed.ast, strict); } catch (e) { return [{ id: c.id, env: -1, skip: 'analysis failed: ' + e.message }]; }
   if (info.usesEval) return [{ id: c.id, env: -1, skip: 'eval/Function' }];
   if (info.annexB) return [{ id: c.id, env: -1, skip: 'annex-B block function clash' }];
+  if (info.tdzStatic) return [{ id: c.id, env: -1, skip: 'input TDZ' }];
   // "the wording of engine error messages" is excluded by the property: programs that read .message/.stack could carry it
   // into host calls or globals, so they are outside what this recorder can compare
   if (info.usesErrText) return [{ id: c.id, env: -1, skip: 'reads .message/.stack' }];
@@ -359,6 +369,7 @@ function observePair(c) {
     if (a.timeout) { res.push({ id: c.id, env: k, skip: 'input timeout' }); continue; }
     if (a.broken) { res.push({ id: c.id, env: k, skip: 'input observation broken' }); continue; }
     if (a.tdz) { res.push({ id: c.id, env: k, skip: 'input TDZ' }); continue; }
+    if (a.stack) { res.push({ id: c.id, env: k, skip: 'input exhausts the stack' }); continue; }
     // determinism check: the second run of the input happens with less stack headroom (300 extra frames below it), so that
     // programs whose observation depends on WHERE the engine's stack overflows (catching RangeError of unbounded recursion) -
     // an engine resource limit, not program semantics; the minified text has other frame sizes - are recognised as
